@@ -536,6 +536,9 @@ def OpOK (w : World Feature) (s : MSeq) : Op → Prop
   | .tabInsert _ => True
   | .filterOverlap _ _ => True
 
+instance (w : World Feature) (s : MSeq) (op : Op) : Decidable (OpOK w s op) := by
+  cases op <;> unfold OpOK <;> infer_instance
+
 /-- run a program: every operation is applied to the SAME `s`, in the world the previous
 operations left behind; returns the results in order and the final world -/
 def runProg (w : World Feature) (s : MSeq) : List Op → List MSeq × World Feature
